@@ -420,6 +420,21 @@ def float_trace(tdgl, a, tmp):
         "grad_exact_on_linear": quanta(G @ f, (alpha * dirs[:, 0] + beta * dirs[:, 1]) / length,
                                        scale=max(abs(alpha), abs(beta))),
     }
+    # the same operators as assembled by MeshOperators.build_operators (what every solve uses)
+    mo0 = ops_mod.MeshOperators(mesh, SparseSolver.SUPERLU, fixed_sites=np.array([], dtype=np.int64), fix_psi=True)
+    lu_singular = False
+    try:
+        mo0.build_operators()
+    except RuntimeError as e:      # "Factor is exactly singular": the pure-Neumann Laplacian IS singular; the matrices are assembled before
+        if "singular" not in str(e):
+            raise
+        lu_singular = True
+    scalar.update({
+        "assembled_divergence_eq_formula": quanta(mo0.divergence.toarray(), refops.divergence(n, edges, dual, area)),
+        "assembled_mu_gradient_eq_formula": quanta(mo0.mu_gradient.toarray(), refops.gradient(n, edges, length)),
+        "assembled_mu_laplacian_eq_formula": quanta(mo0.mu_laplacian.toarray(), refops.laplacian(n, edges, dual, length, area)),
+        "assembled_boundary_eq_formula": quanta(mo0.mu_boundary_laplacian.toarray(), refops.neumann(n, edges, bidx, length, area)),
+    })
     kdim = int((np.abs(lam) <= 1e-9 * lscale).sum())
     ev = [{"ev": "facts", "group": "scalar", "facts": scalar, "kdim": kdim}]
     # covariant operators for random real vector potentials, built and refreshed
@@ -459,7 +474,7 @@ def float_trace(tdgl, a, tmp):
         }})
         mo.set_link_exponents(A)
     return {"kind": "float", "mi": 0, "pat": 0, "geo": False, "heavy": False, "comps": comps, "mesh": {},
-            "ev": ev, "label": a.get("label", a["kind"]), "sites": int(n), "edges": int(m)}
+            "ev": ev, "label": a.get("label", a["kind"]), "sites": int(n), "edges": int(m), "lu_singular": lu_singular}
 
 
 # ------------------------------------------------------------------ validation
